@@ -128,6 +128,15 @@ def rand_layout_schema(rng):
         for f in st["fields"]:
             if rng.random() < 0.3:
                 f["unit"] = rng.choice(["V", "m/s", "rpm"])
+    if rng.random() < 0.3:
+        # one struct gets a field without static length at a random position: its bindings (and those of structs embedding it)
+        # are refused, possibly after some leaves have been laid out
+        st = rng.choice(sch["structs"])
+        t = rng.choice([{"k": "str"}, {"k": "dyn", "t": {"k": "u", "w": 8}}, {"k": "opt", "t": {"k": "u", "w": 3}}])
+        st["fields"].insert(rng.randint(0, len(st["fields"])),
+                            {"name": "vz", "id": max(f["id"] for f in st["fields"]) + rng.choice([1, 5]), "type": t})
+        if rng.random() < 0.5:
+            st["fields"][-1]["id"], st["fields"][0]["id"] = st["fields"][0]["id"], st["fields"][-1]["id"]
     return sch
 
 
@@ -176,8 +185,15 @@ def run_c04(tier, seed):
         for ci, (name, exp, o) in enumerate(zip(h["calls"], h["rets"], obs)):
             e = [exp_leaf(l) for l in exp]
             chk.distinct(json.dumps([sch["structs"], h["unroll"], name], sort_keys=True))
+            if not exp:
+                # the specification refuses this binding (a struct below an array that is not unrolled): the call must raise
+                if not o["raised"]:
+                    chk.violation("encoding.generate:laid-out-a-binding-that-must-be-refused",
+                                  {"mode": "G", "schema_text": glue.schema_text(sch), "unroll": h["unroll"], "calls": h["calls"],
+                                   "call": ci, "observed": o["ret"]})
+                continue
             if o["raised"]:
-                chk.violation("encoding.generate:raised", {"mode": "G", "schema_text": glue.schema_text(sch),
+                chk.violation("encoding.generate:raised%s" % ("" if ci == 0 else ":after-earlier-calls"), {"mode": "G", "schema_text": glue.schema_text(sch),
                               "unroll": h["unroll"], "calls": h["calls"], "call": ci, "error": o["error"]})
                 continue
             what, idx = first_diff(e, o["ret"])
@@ -187,7 +203,7 @@ def run_c04(tier, seed):
                               {"mode": "G", "schema_text": glue.schema_text(sch), "unroll": h["unroll"],
                                "calls": h["calls"], "call_index": ci, "expected": e, "observed": o["ret"]})
         chk.sample({"schema": glue.schema_text(sch), "unroll": h["unroll"], "calls": h["calls"],
-                    "expected_first": [exp_leaf(l) for l in h["rets"][0]]}, cap=2)
+                    "expected_first": [exp_leaf(l) for l in h["rets"][0]] or "refused"}, cap=2)
     # (T) random shapes, long histories on one encoder object, judged by Trace_Layout
     n = 120 if tier == "quick" else 3000
     traces, meta = [], {}
@@ -195,10 +211,9 @@ def run_c04(tier, seed):
         sch = rand_layout_schema(rng)
         fcp = cache.get(sch)
         for unroll in (0, 1):
-            names = [im["name"] for im in sch["impls"]
-                     if unroll or not has_struct_array(sch, {"k": "struct", "name": im["type"]})]
-            if not names:
-                continue
+            # every binding, also those generate() refuses (struct arrays without unrolling, variable-size fields): a refused
+            # call must not disturb the calls that follow on the same object
+            names = [im["name"] for im in sch["impls"]]
             calls = [rng.choice(names) for _ in range(rng.randint(1, 12))]
             obs = run_history(fcp, unroll, calls)
             tid = "h%d-%d" % (i, unroll)
